@@ -272,6 +272,8 @@ def dro_case(draw, polyhedral=True, allow_kl=False, max_scen=4, allow_lift=True,
                'style': draw(st.integers(0, 2))}
         if not (any(row['a0']) or any(row['b'])):
             row['a0'][0] = 1.0
+        if not any(row['c']) and draw(st.booleans()):
+            row['explicit_zero'] = True      # 'a.x + 0*z <= b': a random term with all-zero coefficients
         cons.append(row)
     okind = draw(st.sampled_from(['minsup', 'minsup', 'maxinf']))
     npieces = draw(st.sampled_from([1, 1, 2, 3]))
@@ -493,7 +495,7 @@ def build(case):
         if ny and any(row['b']):
             e = e + ydot(row['b'])
         c = np.array(row['c'])
-        if np.any(c[:nz]):
+        if np.any(c[:nz]) or row.get('explicit_zero'):
             e = e + (c[:nz] @ z if row['style'] != 1 else (c[:nz] * z).sum())
         if nu and c[nz]:
             e = e + float(c[nz]) * u
